@@ -26,6 +26,8 @@ the code for all inputs:
       conditional expression as element)
   N12 a parameterless local function that only returns an expression (or an if/else of such returns) and is only ever
       called is inlined at its call sites
+  N14 a direct call of an undecorated module-level function of the same module whose body is a single `return E` is E
+      with the arguments substituted (when every argument is simple, or every parameter is used once and E has no inner call)
   N6  `t = E` immediately followed by `return t`, where every binding of the local t is such a pair and t is used
       nowhere else  -> `return E`
 
@@ -461,7 +463,77 @@ def normalise_function(fn):
     _stmts(fn, set(roles.function_locals(fn)), _names_used(fn))
 
 
+def _inline_trivial_helpers(tree):
+    """N14: a direct call of an undecorated module-level function of the same module whose body is a single
+    `return E` is E with the arguments substituted - when substitution cannot change what is evaluated or in which
+    order: every argument is a name / attribute / constant, or every parameter occurs exactly once in E and E contains no
+    call other than its outermost one."""
+    import copy as _copy
+
+    helpers = {}
+    for n in tree.body:
+        if isinstance(n, ast.FunctionDef) and not n.decorator_list:
+            b = [s_ for s_ in n.body if not (isinstance(s_, ast.Expr) and isinstance(s_.value, ast.Constant))]
+            a = n.args
+            if len(b) == 1 and isinstance(b[0], ast.Return) and b[0].value is not None and not (a.vararg or a.kwarg or a.kwonlyargs or a.posonlyargs):
+                e = b[0].value
+                if any(isinstance(x, (ast.Lambda, ast.Yield, ast.YieldFrom, ast.Await, ast.NamedExpr, ast.ListComp, ast.SetComp, ast.DictComp, ast.GeneratorExp)) for x in ast.walk(e)):
+                    continue
+                helpers[n.name] = ([x.arg for x in a.args], a.defaults, e)
+    if not helpers:
+        return
+    # a helper that is re-bound or defined twice is left alone
+    counts = {}
+    for n in ast.walk(tree):
+        if isinstance(n, ast.FunctionDef):
+            counts[n.name] = counts.get(n.name, 0) + 1
+        if isinstance(n, ast.Name) and isinstance(n.ctx, ast.Store):
+            counts[n.id] = counts.get(n.id, 0) + 1
+    helpers = {k: v for k, v in helpers.items() if counts.get(k, 0) == 1}
+
+    def simple(x):
+        return isinstance(x, (ast.Name, ast.Constant)) or (isinstance(x, ast.Attribute) and simple(x.value))
+
+    class R(ast.NodeTransformer):
+        def visit_Call(self, c):
+            self.generic_visit(c)
+            if not (isinstance(c.func, ast.Name) and c.func.id in helpers):
+                return c
+            params, defaults, e = helpers[c.func.id]
+            if any(isinstance(a_, ast.Starred) for a_ in c.args) or any(k.arg is None for k in c.keywords) or len(c.args) > len(params):
+                return c
+            bind = dict(zip(params, c.args))
+            for k in c.keywords:
+                if k.arg not in params or k.arg in bind:
+                    return c
+                bind[k.arg] = k.value
+            for p_, d_ in zip(params[len(params) - len(defaults):], defaults):
+                bind.setdefault(p_, d_)
+            if set(bind) != set(params):
+                return c
+            uses = {p_: sum(1 for x in ast.walk(e) if isinstance(x, ast.Name) and x.id == p_) for p_ in params}
+            inner_calls = sum(1 for x in ast.walk(e) if isinstance(x, ast.Call)) - (1 if isinstance(e, ast.Call) else 0)
+            if not (all(simple(v) for v in bind.values()) or (all(u == 1 for u in uses.values()) and inner_calls == 0)):
+                return c
+
+            class S(ast.NodeTransformer):
+                def visit_Name(self, n):
+                    if n.id in bind and isinstance(n.ctx, ast.Load):
+                        return ast.copy_location(_copy.deepcopy(bind[n.id]), n)
+                    return n
+
+            return ast.copy_location(S().visit(_copy.deepcopy(e)), c)
+
+    for i, st in enumerate(tree.body):
+        if isinstance(st, ast.FunctionDef) and st.name in helpers:
+            continue
+        tree.body[i] = R().visit(st)
+    ast.fix_missing_locations(tree)
+
+
 def normalise(tree):
+    _inline_trivial_helpers(tree)
+
     def visit(body):
         for st in body:
             if isinstance(st, ast.ClassDef):
